@@ -130,6 +130,7 @@ namespace hs
         bool             nontrivial_growth_ = false, nontrivial_release_ = false;
         std::size_t      fill_checks_ = 0;
         unsigned         moves_done_ = 0, last_calls_ = 0;
+        int              next_owner_ = 0;
         bool             in_destroy_ = false;
     };
 } // namespace hs
